@@ -557,7 +557,14 @@ class C03(ReduceProp):
             except Exception as e:  # noqa
                 rep.direct.append((case, f"rank2-cohorts-stream: raised {type(e).__name__}: {str(e)[:160]}"))
                 continue
-            if not np.allclose(np.asarray(got, dtype="float64"), np.asarray(want, dtype="float64"), rtol=1e-12, atol=0, equal_nan=True):
+            g64, w64 = np.asarray(got, dtype="float64").copy(), np.asarray(want, dtype="float64").copy()
+            if func == "nanargmax" and g64.shape == w64.shape:
+                # a (row, group) whose members are all NaN has no position (the restriction of C01 / C06): not compared
+                for r in range(vals.shape[0]):
+                    for j in range(k):
+                        if np.isnan(vals[r, labels == j]).all():
+                            g64[r, j] = w64[r, j] = 0.0
+            if g64.shape != w64.shape or not np.allclose(g64, w64, rtol=1e-12, atol=0, equal_nan=True):
                 rep.direct.append((case, f"rank2-cohorts-stream: split_every={se} gives {np.asarray(got).tolist()}, eager {want.tolist()}"))
 
 
